@@ -26,7 +26,7 @@ def main():
             checks = sys.argv[i + 1].split(",")
     dest = os.path.join(VERIF, "seeded", pid, letter)
     os.makedirs(dest, exist_ok=True)
-    rounds = {"A": "", "B": "", "C": "2", "D": "2", "E": "3", "F": "3", "G": "4", "H": "4", "I": "6", "J": "6", "K": "7", "L": "7"}  # later rounds live in /tmp/seed2, /tmp/seed3
+    rounds = {"A": "", "B": "", "C": "2", "D": "2", "E": "3", "F": "3", "G": "4", "H": "4", "I": "6", "J": "6", "K": "7", "L": "7", "M": "8"}  # later rounds live in /tmp/seed2, /tmp/seed3
     out = os.path.join(SRC + rounds.get(letter, ""), "out_" + pid)
     for src, dst in ((letter + ".patch.diff", "patch.diff"), (letter + "_demo_test.go", "demo_test.go.txt"), (letter + ".meta.json", "meta.json")):
         # (an existing copy wins: patches are kept rebased onto /repo's HEAD under /verif/seeded)
